@@ -1,4 +1,4 @@
-CONSTANTS TMAX = 1  MAXE = 2  MAXW = 1  ITERS = 2  KEYS = {0}  OPENEND = FALSE
+CONSTANTS TMAX = 1  MAXE = 2  MAXW = 1  ITERS = 2  KEYS = {0}  FIX_F7 = TRUE
 SPECIFICATION Spec
 INVARIANTS C13_Txn
 CHECK_DEADLOCK FALSE
